@@ -36,6 +36,7 @@ CONSTANTS
   LazyApply = TRUE
   AllowCompact = FALSE
   ProposeAnywhere = FALSE
+  TargetPreds = {}
 CONSTRAINT Bound
 INVARIANT Judge
 INVARIANT Replay
